@@ -916,6 +916,15 @@ def rule_affinity(ctx, m, tier='quick'):
         kern2d.rule_psi2d(ctx, F)
     # C writers
     rule_wps_writers(ctx, m, affinity=True, tier=tier)
+    # the penalty subtracted from affinities is the user's penalty in both engines (Python uses settings.penalty as given)
+    pdefs, praw = parts_defs(m)
+    pen = praw.get('penalty')
+    cls = kern._conv_class(pen, {'penalty'}) if pen is not None else None
+    f0 = m.cfunc(AFF_WRITERS[0])
+    ctx.check(cls == 'identity', 'R-DOM', f0.file if f0 else '', AFF_WRITERS[0], 'affinity penalty domain',
+              'the affinity kernels subtract p.penalty, which dtw_wps_parts defines as %s: for the default inner distance that is the SQUARED penalty, while the '
+              'Python affinity recurrence subtracts the penalty as given (affinities are not squared distances)' % (fmt(norm_minmax(pen))[:120] if pen else None),
+              f0.line if f0 else None)
     for fname in AFF_WRITERS:
         f = m.cfunc(fname)
         if f is None:
@@ -994,3 +1003,52 @@ def rule_dual(ctx, m):
         ctx.check(not diffs, 'R-DUAL', fb.file, b, 'dual of %s' % a,
                   '%s must be %s with `> 0` <-> `< 0` and +inf <-> -inf and otherwise identical index arithmetic; first difference: %s vs %s (%d differences)'
                   % (b, a, diffs[0][0] if diffs else '', diffs[0][1] if diffs else '', len(diffs)), fb.line)
+
+
+# ------------------------------------------------------------------------------------------ writer epilogue domains
+def rule_wps_epilogue(ctx, m):
+    """The compact writers return a distance in the requested domain and compare it with max_dist in one domain;
+    the psi end-relaxation scans stay inside the band (F3, F39)."""
+    for fname in WRITERS:
+        info = analyse_writer(m, fname)
+        f = info['func']
+        regs = info['regions']
+        kind = 'euclidean' if any(s.k == 'assign' and s.value[0] == 'call' and dotted(s.value[1]) == 'sqrt' and s.target == ('var', 'd')
+                                  for s in walk_stmts(regs[0].main.body)) else 'squared'
+        rets = [e for e in info['epilogue'].events if e[0] == 'return' and e[2] is not None]
+        if not rets:
+            raise AnalysisError('unrecognised shape: %s has no return after the regions' % fname)
+        val = rets[-1][2]
+        found = False
+        for x in walk_expr(val):
+            if x[0] == 'cond':
+                for c in kern._conj([x[1]]):
+                    if c[0] == 'bin' and c[1] in ('>', '>=') and kern._mentions(c[3], {'max_dist'}) and not kern._mentions(c[2], {'max_dist'}) \
+                            and c[3] != ('num', 0) and kern._conv_class(c[3], {'max_dist'}) is not None and not any(y[0] == 'call' and (dotted(y[1]) or '').startswith('ub_euclidean') for y in walk_expr(c[3])):
+                        found = True
+                        a = c[2]
+                        rooted = any(y[0] == 'call' and dotted(y[1]) == 'sqrt' for y in walk_expr(a))
+                        thr_sq = kern._conv_class(c[3], {'max_dist'}) == 'squared'
+                        ctx.check(c[1] == '>', 'R-PRUNE', f.file, fname, 'final threshold comparator', 'only `rvalue > max_dist` may become infinity', rets[-1][3].line)
+                        value_sq = (kind == 'squared') and not rooted
+                        ok = value_sq == thr_sq
+                        ctx.check(ok, 'R-DOM', f.file, fname, 'final threshold domain',
+                                  'the final over-threshold conversion compares values of different domains (result value %s, threshold %s): a true distance '
+                                  'below max_dist can become infinity (or one above it stay finite)' % ('squared cost' if value_sq else 'distance', 'squared' if thr_sq else 'as given'),
+                                  rets[-1][3].line)
+        ctx.check(found, 'R-PRUNE', f.file, fname, 'final threshold conversion', 'no final `rvalue > max_dist -> infinity` conversion', f.line)
+        # reaching definitions: the result cell must be addressed from the layout, not through the position variable left behind by
+        # the last column loop (stale after an early `break` of the pruning block)
+        stale = sorted({y[1] for y in walk_expr(val) if y[0] == 'var' and '@after' in y[1] and y[1].split('@')[0] in (regs[-1].wvar, regs[-1].colvar)})
+        ctx.check(not stale, 'R-PSI', f.file, fname, 'result cell index',
+                  'the returned distance is read at an index computed from %s, the value the column loop of the last row left behind: when that row was '
+                  'abandoned early by the pruning block (max_dist / use_pruning) this addresses the last cell WRITTEN, not cell (l1-1, l2-1), and a smaller finite '
+                  'number is returned where the Python engine returns infinity' % stale, rets[-1][3].line)
+        # only_ub / pruning bound of the same kind
+        for e in info['prologue'].events:
+            if e[0] == 'return' and e[2] is not None and e[2][0] != 'call':
+                v = e[2]
+                sq = any(y[0] == 'call' and dotted(y[1]) == 'sqrt' for y in walk_expr(v))
+                if kind == 'euclidean':
+                    ctx.check(not sq, 'R-DOM', f.file, fname, 'only_ub return', 'the euclidean writer must return its Euclidean bound unrooted', e[3].line)
+        ctx.sample({'writer': fname, 'kind': kind, 'return': fmt(val)[:200]})
